@@ -60,7 +60,32 @@ class Context:
     def callgraph(self) -> T.Any:
         from .callgraph import CallGraph
 
-        return self.memo("callgraph", lambda: CallGraph(self.prog, self.types))
+        def build() -> T.Any:
+            cg = CallGraph(self.prog, self.types)
+            # fail closed: a call of a method that the (repo) class of its receiver does not define - and that is not a stored
+            # callable attribute - would be treated as an external call that cannot fail
+            import ast as _ast
+
+            from .load import AnalysisError
+
+            bad = []
+            for sites in cg.sites.values():
+                for s in sites:
+                    for c in s.callees:
+                        if c.ext and c.ext.startswith("?") and c.recv is not None and c.recv[0] == "cls" and not c.recv[1].external_bases():
+                            name = c.ext.rsplit(".", 1)[-1]
+                            cls = c.recv[1]
+                            stored = any(isinstance(n, _ast.Attribute) and n.attr == name and isinstance(n.ctx, _ast.Store)
+                                         for k in cls.mro() for m in k.methods.values() for n in _ast.walk(m.node))
+                            declared = any(isinstance(st, (_ast.AnnAssign, _ast.Assign)) and any(isinstance(t, _ast.Name) and t.id == name for t in
+                                           ([st.target] if isinstance(st, _ast.AnnAssign) else st.targets)) for k in cls.mro() for st in k.node.body)
+                            if not stored and not declared:
+                                bad.append(f"{s.owner.module.relpath}:{s.lineno} {c.ext[1:]}")
+            if bad:
+                raise AnalysisError("call of a method that the receiver's class does not define (the analysis cannot see what it does): " + "; ".join(sorted(set(bad))[:5]))
+            return cg
+
+        return self.memo("callgraph", build)
 
     @property
     def escape(self) -> T.Any:
